@@ -197,6 +197,7 @@ def run(P, R, tier):
     saveends_rule(P, R)
     savernull_rule(P, R)
     rangeorder_rule(P, R)
+    wholeclear_rule(P, R)
 
 
 def writes_store(s):
@@ -909,3 +910,37 @@ def rangeorder_rule(P, R):
                 R.violation(RULE, inst, "the range of a %s definition is expanded in %s (line %d), after all input of the simulation has been read and in number order: `X 1-3` followed "
                             "by `X 2` in one simulation loses the second definition" % (m.replace("Rxn_", "").replace("_map", ""), fname, line),
                             file=g["file"], line=line, function=g["q"])
+
+
+WHOLECLEAR_OWNERS = {"Phreeqc::clean_up": "end of the instance / database reload: everything goes",
+                     "Phreeqc::reinitialize": "explicit reset of the reaction state between runs (same set of stores)",
+                     "Phreeqc::delete_entities": "DELETE -<kind> without numbers (or -all): the input names the whole store; the branch is the `numbers.size() == 0` case"}
+
+
+def wholeclear_rule(P, R):
+    """"DELETE removes exactly the named entries" - and nothing else removes entries the input did not name.  Census of `.clear()` on the
+    eleven keyed stores Rxn_<kind>_map (the *_mix_map request lists are not stores): only the functions that reset the whole instance may
+    empty a store.  (transport() and transport_cleanup() emptied Rxn_mix_map to make room for the recipes of a stagnant column: a MIX 100
+    that names no cell of the column was lost.)"""
+    RULE = "C14.wholeclear"
+    R.rule(RULE, "a keyed store Rxn_<kind>_map is emptied as a whole only by the functions that reset the instance", minimum=20)
+    import re as _re
+    n = 0
+    for k, g in sorted(P.functions.items(), key=lambda kv: (kv[1]["file"], kv[1]["line"])):
+        if not g.get("body"):
+            continue
+        for c in T.calls(g["body"]):
+            if T.callee_name(c) != "clear" or T.call_obj(c) is None:
+                continue
+            ms = [y[2].split("::")[-1] for y in T.walk(T.call_obj(c)) if y[0] == "Member" and _re.match(r"Phreeqc::Rxn_\w+_map$", y[2]) and not _re.match(r"Phreeqc::Rxn_\w+_mix_map$", y[2])]
+            if not ms:
+                continue
+            n += 1
+            inst = "%s:%s@%d" % (g["q"].split("::")[-1], ms[0], c[1] - g["line"])
+            if g["q"] in WHOLECLEAR_OWNERS:
+                R.ok(RULE, inst, WHOLECLEAR_OWNERS[g["q"]])
+            else:
+                R.violation(RULE, inst, "%s empties the whole store %s: entries that the calculation does not own (numbers the input never named for it) are deleted without a "
+                            "message" % (g["q"], ms[0]), file=g["file"], line=c[1], function=g["q"])
+    if n < 20:
+        R.anchor_missing(RULE, "only %d whole-store clears found (the reset functions alone have 22)" % n)
